@@ -16,7 +16,8 @@
 //   - any top-level declaration, in any file of these packages, whose name is a predeclared identifier (len, copy,
 //     append, recover, false, …): reported as `shadow:<name>`;
 //   - "closure": every package of this module imported (transitively) by the anchored packages — one digest per file;
-//   - "module": go.mod's require / replace / exclude directives, and every write to (or address-of) a package-level
+//   - "module": go.mod's require / replace / exclude directives, the presence of go.work / go.work.sum /
+//     vendor/modules.txt (they redirect dependencies for builds inside the repository only), and every write to (or address-of) a package-level
 //     variable of an anchored or closure package from any other package of the module.
 //
 // bin/check compares this with the committed expectation meta/surface/<Cxx>.json on every run.
@@ -430,6 +431,13 @@ func main() {
 			keep = append(keep, strings.Join(strings.Fields(l), " "))
 		}
 		mod["gomod:require-replace-exclude"] = sha(strings.Join(keep, "\n"))
+	}
+	// files that change which code a build INSIDE the repository links, without touching go.mod (the harness builds with
+	// its own modfile and -mod=mod, so it would never see them)
+	for _, f := range []string{"go.work", "go.work.sum", "vendor/modules.txt"} {
+		if b, err := os.ReadFile(filepath.Join(repo, f)); err == nil {
+			mod["buildfile:"+f] = sha(string(b))
+		}
 	}
 	targets := map[string]bool{}
 	for d := range anchoredDirs {
